@@ -1,8 +1,796 @@
-//! C19 — correspondence driver (stub: not built yet).
+//! C19 — numeric trait contracts: correspondence driver.
+//!
+//! Line protocol (every line is an independent case, see lean/Driver/C19.lean):
+//!
+//!   @ from_usize <ty> <wrap> <n>
+//!   @ from_usize_range <ty> <wrap> <lo> <hi>
+//!   @ zero_one <ty> <wrap>
+//!   @ op <ty> <wrap> <add|sub|mul|div|neg> <a> <b>
+//!   @ ident <ty> <wrap> <a>
+//!   @ fop <f32|f64> <op> <abits> <bbits>
+//!   @ fident <f32|f64> <abits>
+//!   @ user <routine> <Fp|Rat> <args…>          (c19_user.rs)
+//!   @ trop|trsc|trneg|trpow|recop|recsc|recneg|recpow …   Trace / Record operators (c19_wrap.rs)
+//!
+//! The operators are reached through easy-ml's own trait machinery wherever the type is
+//! `Numeric` (`T: Numeric, for<'a> &'a T: NumericRef<T>`), so the blanket impls of
+//! src/numeric.rs are what resolves all four owned/borrowed operand forms.  Unsigned plain
+//! integers and `Saturating<unsigned>` have no `Neg` and are therefore not `Numeric`; for them
+//! the four forms are spelled out on the concrete type.  (With the std of the pinned toolchain no
+//! `Saturating<T>` is `Numeric` at all: the signed ones lack `Sum`.)
 
 use crate::util::*;
+use easy_ml::differentiation::{Primitive, Record, Trace};
+use easy_ml::numeric::{FromUsize, Numeric, NumericRef, ZeroOne};
+use std::fmt::{Debug, Display};
+use std::num::{Saturating, Wrapping};
 
-pub fn gen(_g: &mut Gen) {}
+#[path = "c19_user.rs"]
+pub mod user;
+#[path = "c19_wrap.rs"]
+pub mod wrap;
+
+pub const INT_TYS: [&str; 12] =
+    ["u8", "i8", "u16", "i16", "u32", "i32", "u64", "i64", "u128", "i128", "usize", "isize"];
+
+/// The twelve primitive integer types, seen through one interface.
+pub trait Prim:
+    Copy + Debug + Display + PartialEq + FromUsize + ZeroOne + std::str::FromStr + Primitive + 'static
+{
+    const BITS: u32;
+    const SIGNED: bool;
+    fn as_i128(self) -> i128;
+    fn from_bits(bits: u128) -> Self;
+    fn checked(op: &str, a: Self, b: Self) -> Option<Self>;
+    fn max() -> Self;
+    fn min() -> Self;
+}
+
+macro_rules! impl_prim {
+    ($T:ty, $signed:expr) => {
+        impl Prim for $T {
+            const BITS: u32 = <$T>::BITS;
+            const SIGNED: bool = $signed;
+            fn as_i128(self) -> i128 {
+                self as i128
+            }
+            fn from_bits(bits: u128) -> Self {
+                bits as $T
+            }
+            fn checked(op: &str, a: Self, b: Self) -> Option<Self> {
+                match op {
+                    "add" => a.checked_add(b),
+                    "sub" => a.checked_sub(b),
+                    "mul" => a.checked_mul(b),
+                    "div" => a.checked_div(b),
+                    "neg" => a.checked_neg(),
+                    _ => None,
+                }
+            }
+            fn max() -> Self {
+                <$T>::MAX
+            }
+            fn min() -> Self {
+                <$T>::MIN
+            }
+        }
+    };
+}
+impl_prim!(u8, false);
+impl_prim!(i8, true);
+impl_prim!(u16, false);
+impl_prim!(i16, true);
+impl_prim!(u32, false);
+impl_prim!(i32, true);
+impl_prim!(u64, false);
+impl_prim!(i64, true);
+impl_prim!(u128, false);
+impl_prim!(i128, true);
+impl_prim!(usize, false);
+impl_prim!(isize, true);
+
+/// Dispatch a type name to the concrete primitive integer type.
+macro_rules! with_int {
+    ($ty:expr, $T:ident => $body:expr, else $other:expr) => {
+        match $ty {
+            "u8" => { type $T = u8; $body }
+            "i8" => { type $T = i8; $body }
+            "u16" => { type $T = u16; $body }
+            "i16" => { type $T = i16; $body }
+            "u32" => { type $T = u32; $body }
+            "i32" => { type $T = i32; $body }
+            "u64" => { type $T = u64; $body }
+            "i64" => { type $T = i64; $body }
+            "u128" => { type $T = u128; $body }
+            "i128" => { type $T = i128; $body }
+            "usize" => { type $T = usize; $body }
+            "isize" => { type $T = isize; $body }
+            _ => $other,
+        }
+    };
+}
+
+/// Dispatch to a signed primitive integer type only.
+macro_rules! with_signed {
+    ($ty:expr, $T:ident => $body:expr, else $other:expr) => {
+        match $ty {
+            "i8" => { type $T = i8; $body }
+            "i16" => { type $T = i16; $body }
+            "i32" => { type $T = i32; $body }
+            "i64" => { type $T = i64; $body }
+            "i128" => { type $T = i128; $body }
+            "isize" => { type $T = isize; $body }
+            _ => $other,
+        }
+    };
+}
+
+fn is_signed(ty: &str) -> bool {
+    ty.starts_with('i')
+}
+
+fn is_float(ty: &str) -> bool {
+    ty == "f32" || ty == "f64"
+}
+
+// ---------------------------------------------------------------------------------------------
+// from_usize / zero / one through the wrapper stack
+// ---------------------------------------------------------------------------------------------
+
+/// Something whose number can be shown the way the model shows it.
+pub trait Shown {
+    fn shown(&self) -> String;
+    /// value minus `n` as an integer (integers only; used by the range encoding)
+    fn minus(&self, n: usize) -> Option<i128>;
+}
+macro_rules! shown_int {
+    ($($T:ty),*) => {$(
+        impl Shown for $T {
+            fn shown(&self) -> String { self.to_string() }
+            fn minus(&self, n: usize) -> Option<i128> { Some((*self as i128).wrapping_sub(n as i128)) }
+        }
+    )*};
+}
+shown_int!(u8, i8, u16, i16, u32, i32, u64, i64, u128, i128, usize, isize);
+impl Shown for f32 {
+    fn shown(&self) -> String { format!("bits:{}", self.to_bits()) }
+    fn minus(&self, _n: usize) -> Option<i128> { None }
+}
+impl Shown for f64 {
+    fn shown(&self) -> String { format!("bits:{}", self.to_bits()) }
+    fn minus(&self, _n: usize) -> Option<i128> { None }
+}
+impl<T: Shown> Shown for Wrapping<T> {
+    fn shown(&self) -> String { self.0.shown() }
+    fn minus(&self, n: usize) -> Option<i128> { self.0.minus(n) }
+}
+impl<T: Shown> Shown for Saturating<T> {
+    fn shown(&self) -> String { self.0.shown() }
+    fn minus(&self, n: usize) -> Option<i128> { self.0.minus(n) }
+}
+
+/// (number, extra text) of `E::from_usize(n)`
+fn fu_plain<E: FromUsize + Shown>(n: usize) -> Option<(String, Option<i128>, String)> {
+    E::from_usize(n).map(|v| (v.shown(), v.minus(n), String::new()))
+}
+
+fn fu_trace<E: Numeric + Primitive + Shown>(n: usize) -> Option<(String, Option<i128>, String)> {
+    Trace::<E>::from_usize(n).map(|t| (t.number.shown(), t.number.minus(n), format!(" der={}", t.derivative.shown())))
+}
+
+fn fu_record<E: Numeric + Primitive + Shown + 'static>(n: usize) -> Option<(String, Option<i128>, String)> {
+    Record::<'static, E>::from_usize(n).map(|r| {
+        let hist = if r.history().is_some() { "some" } else { "none" };
+        (r.number.shown(), r.number.minus(n), format!(" hist={} idx={}", hist, r.index))
+    })
+}
+
+type Fu = Option<(String, Option<i128>, String)>;
+
+/// `from_usize` of `<wrap>` over `<ty>`; `Err` if the combination does not exist in Rust
+/// (e.g. `Trace<u8>`: `u8` is not `Numeric`).
+fn from_usize_any(ty: &str, wrap: &str, n: usize) -> Result<Fu, String> {
+    let bad = || Err(format!("no-such-type {} {}", ty, wrap));
+    match (ty, wrap) {
+        ("f32", "plain") => Ok(fu_plain::<f32>(n)),
+        ("f64", "plain") => Ok(fu_plain::<f64>(n)),
+        ("f32", "wrapping") => Ok(fu_plain::<Wrapping<f32>>(n)),
+        ("f64", "wrapping") => Ok(fu_plain::<Wrapping<f64>>(n)),
+        ("f32", "saturating") => Ok(fu_plain::<Saturating<f32>>(n)),
+        ("f64", "saturating") => Ok(fu_plain::<Saturating<f64>>(n)),
+        ("f32", "trace") => Ok(fu_trace::<f32>(n)),
+        ("f64", "trace") => Ok(fu_trace::<f64>(n)),
+        ("f32", "record") => Ok(fu_record::<f32>(n)),
+        ("f64", "record") => Ok(fu_record::<f64>(n)),
+        (_, "plain") => with_int!(ty, T => Ok(fu_plain::<T>(n)), else bad()),
+        (_, "wrapping") => with_int!(ty, T => Ok(fu_plain::<Wrapping<T>>(n)), else bad()),
+        (_, "saturating") => with_int!(ty, T => Ok(fu_plain::<Saturating<T>>(n)), else bad()),
+        (_, "trace") => with_signed!(ty, T => Ok(fu_trace::<T>(n)), else bad()),
+        (_, "record") => with_signed!(ty, T => Ok(fu_record::<T>(n)), else bad()),
+        (_, "trace_wrapping") => with_int!(ty, T => Ok(fu_trace::<Wrapping<T>>(n)), else bad()),
+        (_, "record_wrapping") => with_int!(ty, T => Ok(fu_record::<Wrapping<T>>(n)), else bad()),
+        _ => bad(),
+    }
+}
+
+/// Which wrappers exist for a type name.
+pub fn wraps_of(ty: &str) -> Vec<&'static str> {
+    if is_float(ty) {
+        vec!["plain", "wrapping", "saturating", "trace", "record"]
+    } else if is_signed(ty) {
+        vec![
+            "plain", "wrapping", "saturating", "trace", "record", "trace_wrapping", "record_wrapping",
+        ]
+    } else {
+        vec!["plain", "wrapping", "saturating", "trace_wrapping", "record_wrapping"]
+    }
+}
+
+fn from_usize_line(ty: &str, wrap: &str, n: usize) -> String {
+    match from_usize_any(ty, wrap, n) {
+        Err(e) => e,
+        Ok(Some((v, _, extra))) => format!("some({}){}", v, extra),
+        Ok(None) => "none".to_string(),
+    }
+}
+
+fn range_key(ty: &str, wrap: &str, n: usize) -> String {
+    match from_usize_any(ty, wrap, n) {
+        Err(e) => e,
+        Ok(Some((_, Some(d), extra))) => {
+            if d >= 0 { format!("+{}{}", d, extra) } else { format!("{}{}", d, extra) }
+        }
+        Ok(Some((_, None, _))) => "bad".to_string(),
+        Ok(None) => "none".to_string(),
+    }
+}
+
+fn range_line(ty: &str, wrap: &str, lo: usize, hi: usize) -> String {
+    let mut runs: Vec<String> = vec![];
+    let mut start = lo;
+    let mut cur = range_key(ty, wrap, lo);
+    let mut i = lo;
+    while i < hi {
+        i += 1;
+        let key = range_key(ty, wrap, i);
+        if key != cur {
+            runs.push(format!("{}..{}:{}", start, i - 1, cur));
+            start = i;
+            cur = key;
+        }
+    }
+    runs.push(format!("{}..{}:{}", start, hi, cur));
+    runs.join(" ")
+}
+
+fn zo_plain<E: ZeroOne + Shown>() -> String {
+    format!("zero={} one={}", E::zero().shown(), E::one().shown())
+}
+fn zo_trace<E: Numeric + Primitive + Shown>() -> String {
+    let (z, o) = (Trace::<E>::zero(), Trace::<E>::one());
+    format!("zero={} one={} der={},{}", z.number.shown(), o.number.shown(), z.derivative.shown(), o.derivative.shown())
+}
+fn zo_record<E: Numeric + Primitive + Shown + 'static>() -> String {
+    let (z, o) = (Record::<'static, E>::zero(), Record::<'static, E>::one());
+    let h = |r: &Record<'static, E>| if r.history().is_some() { "some" } else { "none" };
+    format!("zero={} one={} hist={},{} idx={},{}", z.number.shown(), o.number.shown(), h(&z), h(&o), z.index, o.index)
+}
+
+fn zero_one_line(ty: &str, wrap: &str) -> String {
+    let bad = || format!("no-such-type {} {}", ty, wrap);
+    match (ty, wrap) {
+        ("f32", "plain") => zo_plain::<f32>(),
+        ("f64", "plain") => zo_plain::<f64>(),
+        ("f32", "wrapping") => zo_plain::<Wrapping<f32>>(),
+        ("f64", "wrapping") => zo_plain::<Wrapping<f64>>(),
+        ("f32", "saturating") => zo_plain::<Saturating<f32>>(),
+        ("f64", "saturating") => zo_plain::<Saturating<f64>>(),
+        ("f32", "trace") => zo_trace::<f32>(),
+        ("f64", "trace") => zo_trace::<f64>(),
+        ("f32", "record") => zo_record::<f32>(),
+        ("f64", "record") => zo_record::<f64>(),
+        (_, "plain") => with_int!(ty, T => zo_plain::<T>(), else bad()),
+        (_, "wrapping") => with_int!(ty, T => zo_plain::<Wrapping<T>>(), else bad()),
+        (_, "saturating") => with_int!(ty, T => zo_plain::<Saturating<T>>(), else bad()),
+        (_, "trace") => with_signed!(ty, T => zo_trace::<T>(), else bad()),
+        (_, "record") => with_signed!(ty, T => zo_record::<T>(), else bad()),
+        (_, "trace_wrapping") => with_int!(ty, T => zo_trace::<Wrapping<T>>(), else bad()),
+        (_, "record_wrapping") => with_int!(ty, T => zo_record::<Wrapping<T>>(), else bad()),
+        _ => bad(),
+    }
+}
+
+// ---------------------------------------------------------------------------------------------
+// the four operand forms
+// ---------------------------------------------------------------------------------------------
+
+fn show_res<E: Shown>(r: &Result<E, PanicKind>) -> String {
+    match r {
+        Ok(v) => v.shown(),
+        Err(k) => panic_str(*k),
+    }
+}
+
+/// One answer if all forms agree, otherwise all of them.
+fn merge(forms: Vec<(&'static str, String)>) -> String {
+    if forms.iter().all(|(_, s)| *s == forms[0].1) {
+        forms[0].1.clone()
+    } else {
+        format!(
+            "forms-differ({})",
+            forms.iter().map(|(n, s)| format!("{}={}", n, s)).collect::<Vec<_>>().join(",")
+        )
+    }
+}
+
+/// All forms of `a op b` through easy-ml's `Numeric` / `NumericRef` bounds.
+fn forms_numeric<E: Numeric + Shown>(op: &str, a: &E, b: &E) -> Option<String>
+where
+    for<'x> &'x E: NumericRef<E>,
+{
+    let r = match op {
+        "add" => vec![
+            ("vv", show_res(&catch(|| a.clone() + b.clone()))),
+            ("vr", show_res(&catch(|| a.clone() + b))),
+            ("rv", show_res(&catch(|| a + b.clone()))),
+            ("rr", show_res(&catch(|| a + b))),
+        ],
+        "sub" => vec![
+            ("vv", show_res(&catch(|| a.clone() - b.clone()))),
+            ("vr", show_res(&catch(|| a.clone() - b))),
+            ("rv", show_res(&catch(|| a - b.clone()))),
+            ("rr", show_res(&catch(|| a - b))),
+        ],
+        "mul" => vec![
+            ("vv", show_res(&catch(|| a.clone() * b.clone()))),
+            ("vr", show_res(&catch(|| a.clone() * b))),
+            ("rv", show_res(&catch(|| a * b.clone()))),
+            ("rr", show_res(&catch(|| a * b))),
+        ],
+        "div" => vec![
+            ("vv", show_res(&catch(|| a.clone() / b.clone()))),
+            ("vr", show_res(&catch(|| a.clone() / b))),
+            ("rv", show_res(&catch(|| a / b.clone()))),
+            ("rr", show_res(&catch(|| a / b))),
+        ],
+        "neg" => vec![("v", show_res(&catch(|| -a.clone()))), ("r", show_res(&catch(|| -a)))],
+        _ => return None,
+    };
+    Some(merge(r))
+}
+
+/// All forms of `a op b` on a concrete `Copy` type that is not `Numeric` (no `Neg`).
+macro_rules! forms_concrete {
+    ($op:expr, $a:expr, $b:expr) => {{
+        let (a, b) = ($a, $b);
+        let r = match $op {
+            "add" => Some(vec![
+                ("vv", show_res(&catch(|| a + b))),
+                ("vr", show_res(&catch(|| a + &b))),
+                ("rv", show_res(&catch(|| &a + b))),
+                ("rr", show_res(&catch(|| &a + &b))),
+            ]),
+            "sub" => Some(vec![
+                ("vv", show_res(&catch(|| a - b))),
+                ("vr", show_res(&catch(|| a - &b))),
+                ("rv", show_res(&catch(|| &a - b))),
+                ("rr", show_res(&catch(|| &a - &b))),
+            ]),
+            "mul" => Some(vec![
+                ("vv", show_res(&catch(|| a * b))),
+                ("vr", show_res(&catch(|| a * &b))),
+                ("rv", show_res(&catch(|| &a * b))),
+                ("rr", show_res(&catch(|| &a * &b))),
+            ]),
+            "div" => Some(vec![
+                ("vv", show_res(&catch(|| a / b))),
+                ("vr", show_res(&catch(|| a / &b))),
+                ("rv", show_res(&catch(|| &a / b))),
+                ("rr", show_res(&catch(|| &a / &b))),
+            ]),
+            _ => None,
+        };
+        r.map(merge)
+    }};
+}
+
+fn parse_val<T: Prim>(s: &str) -> Option<T> {
+    s.parse::<T>().ok()
+}
+
+fn op_line(ty: &str, wrap: &str, op: &str, a: &str, b: &str) -> String {
+    let bad = || "bad-op".to_string();
+    macro_rules! go {
+        ($T:ident, $E:ty, $wrapf:expr, numeric) => {{
+            match (parse_val::<$T>(a), parse_val::<$T>(b)) {
+                (Some(x), Some(y)) => {
+                    let (x, y): ($E, $E) = ($wrapf(x), $wrapf(y));
+                    forms_numeric::<$E>(op, &x, &y).unwrap_or_else(bad)
+                }
+                _ => bad(),
+            }
+        }};
+        ($T:ident, $E:ty, $wrapf:expr, concrete) => {{
+            match (parse_val::<$T>(a), parse_val::<$T>(b)) {
+                (Some(x), Some(y)) => {
+                    let (x, y): ($E, $E) = ($wrapf(x), $wrapf(y));
+                    forms_concrete!(op, x, y).unwrap_or_else(bad)
+                }
+                _ => bad(),
+            }
+        }};
+    }
+    match wrap {
+        "plain" => {
+            if is_signed(ty) {
+                with_signed!(ty, T => go!(T, T, (|v| v), numeric), else bad())
+            } else {
+                with_int!(ty, T => go!(T, T, (|v| v), concrete), else bad())
+            }
+        }
+        "wrapping" => with_int!(ty, T => go!(T, Wrapping<T>, Wrapping, numeric), else bad()),
+        // no `Saturating<T>` is `Numeric` (std: unsigned ones lack `Neg`, signed ones lack `Sum`)
+        "saturating" if op == "neg" => with_signed!(ty, T => {
+            match parse_val::<T>(a) {
+                Some(x) => {
+                    let x = Saturating(x);
+                    merge(vec![("v", show_res(&catch(|| -x))), ("r", show_res(&catch(|| -&x)))])
+                }
+                None => bad(),
+            }
+        }, else bad()),
+        "saturating" => with_int!(ty, T => go!(T, Saturating<T>, Saturating, concrete), else bad()),
+        _ => bad(),
+    }
+}
+
+/// `zero + a, a + zero, one * a, a * one`, each through all four forms.
+fn ident_line(ty: &str, wrap: &str, a: &str) -> String {
+    let bad = || "bad-op".to_string();
+    macro_rules! go {
+        ($E:ty, $x:expr, numeric) => {{
+            let x: $E = $x;
+            let (z, o) = (<$E as ZeroOne>::zero(), <$E as ZeroOne>::one());
+            [forms_numeric::<$E>("add", &z, &x), forms_numeric::<$E>("add", &x, &z), forms_numeric::<$E>("mul", &o, &x), forms_numeric::<$E>("mul", &x, &o)]
+                .iter()
+                .map(|r| r.clone().unwrap_or_else(bad))
+                .collect::<Vec<_>>()
+                .join(",")
+        }};
+        ($E:ty, $x:expr, concrete) => {{
+            let x: $E = $x;
+            let (z, o) = (<$E as ZeroOne>::zero(), <$E as ZeroOne>::one());
+            [forms_concrete!("add", z, x), forms_concrete!("add", x, z), forms_concrete!("mul", o, x), forms_concrete!("mul", x, o)]
+                .iter()
+                .map(|r| r.clone().unwrap_or_else(bad))
+                .collect::<Vec<_>>()
+                .join(",")
+        }};
+    }
+    macro_rules! parsed {
+        ($T:ident, $k:expr) => {
+            match parse_val::<$T>(a) {
+                Some(v) => $k(v),
+                None => bad(),
+            }
+        };
+    }
+    match wrap {
+        "plain" => {
+            if is_signed(ty) {
+                with_signed!(ty, T => parsed!(T, |v: T| go!(T, v, numeric)), else bad())
+            } else {
+                with_int!(ty, T => parsed!(T, |v: T| go!(T, v, concrete)), else bad())
+            }
+        }
+        "wrapping" => with_int!(ty, T => parsed!(T, |v: T| go!(Wrapping<T>, Wrapping(v), numeric)), else bad()),
+        "saturating" => with_int!(ty, T => parsed!(T, |v: T| go!(Saturating<T>, Saturating(v), concrete)), else bad()),
+        _ => bad(),
+    }
+}
+
+/// floats: the four forms are compared with each other only (bit patterns), never with the model
+fn fop_line(ty: &str, op: &str, a: &str, b: &str) -> String {
+    let r = match ty {
+        "f32" => match (a.parse::<u32>(), b.parse::<u32>()) {
+            (Ok(x), Ok(y)) => forms_numeric::<f32>(op, &f32::from_bits(x), &f32::from_bits(y)),
+            _ => None,
+        },
+        "f64" => match (a.parse::<u64>(), b.parse::<u64>()) {
+            (Ok(x), Ok(y)) => forms_numeric::<f64>(op, &f64::from_bits(x), &f64::from_bits(y)),
+            _ => None,
+        },
+        _ => None,
+    };
+    match r {
+        None => "bad-op".to_string(),
+        Some(s) if s.starts_with("forms-differ") => s,
+        Some(_) => "agree".to_string(),
+    }
+}
+
+fn fident_generic<E: Numeric + Shown + PartialEq>(x: E) -> String
+where
+    for<'x> &'x E: NumericRef<E>,
+{
+    let (z, o) = (E::zero(), E::one());
+    let mut bad = vec![];
+    if !(x == x) {
+        return "ident-ok".to_string(); // NaN: no identity is claimed
+    }
+    if !(z.clone() + x.clone() == x) || !(&z + &x == x) {
+        bad.push("0+a");
+    }
+    if !(x.clone() + z.clone() == x) || !(&x + &z == x) {
+        bad.push("a+0");
+    }
+    if !(o.clone() * x.clone() == x) || !(&o * &x == x) {
+        bad.push("1*a");
+    }
+    if !(x.clone() * o.clone() == x) || !(&x * &o == x) {
+        bad.push("a*1");
+    }
+    if bad.is_empty() { "ident-ok".to_string() } else { format!("ident-fails({}) at {}", bad.join(","), x.shown()) }
+}
+
+fn fident_line(ty: &str, a: &str) -> String {
+    match ty {
+        "f32" => a.parse::<u32>().map(|x| fident_generic::<f32>(f32::from_bits(x))).unwrap_or("bad-op".into()),
+        "f64" => a.parse::<u64>().map(|x| fident_generic::<f64>(f64::from_bits(x))).unwrap_or("bad-op".into()),
+        _ => "bad-op".into(),
+    }
+}
+
+// ---------------------------------------------------------------------------------------------
+// generator
+// ---------------------------------------------------------------------------------------------
+
+fn rand_bits(g: &mut Gen) -> u128 {
+    ((g.rng.next() as u128) << 64) | g.rng.next() as u128
+}
+
+/// a value of `T`: edge values, small magnitudes, random full-width patterns
+fn gen_val<T: Prim>(g: &mut Gen) -> T {
+    match g.rng.below(10) {
+        0..=2 => {
+            // edges
+            let k = g.rng.below(9);
+            let max = T::max();
+            let min = T::min();
+            match k {
+                0 => min,
+                1 => max,
+                2 => T::from_bits(0),
+                3 => T::from_bits(1),
+                4 => T::from_bits(max.as_i128() as u128 - 1),
+                5 => T::from_bits((min.as_i128() + 1) as u128),
+                6 => if T::SIGNED { T::from_bits((-1i128) as u128) } else { T::from_bits(2) },
+                7 => T::from_bits((max.as_i128() as u128) / 2),
+                _ => if T::SIGNED { T::from_bits((-2i128) as u128) } else { T::from_bits(3) },
+            }
+        }
+        3..=5 => {
+            // small magnitudes (products mostly representable)
+            let half = (T::BITS / 2).max(2) - 1;
+            let bits = g.rng.range(1, half as usize) as u32;
+            let v = (rand_bits(g) & ((1u128 << bits) - 1)) as i128;
+            if T::SIGNED && g.rng.chance(1, 2) { T::from_bits((-v) as u128) } else { T::from_bits(v as u128) }
+        }
+        6 => {
+            // a power of two, +-1
+            let k = g.rng.below(T::BITS as usize) as u32;
+            let p = 1u128 << k;
+            match g.rng.below(3) {
+                0 => T::from_bits(p),
+                1 => T::from_bits(p.wrapping_sub(1)),
+                _ => T::from_bits(p.wrapping_add(1)),
+            }
+        }
+        _ => T::from_bits(rand_bits(g)),
+    }
+}
+
+fn gen_ops_for<T: Prim>(g: &mut Gen, ty: &str, pairs: usize) {
+    let ops = ["add", "sub", "mul", "div"];
+    for wrap in ["wrapping", "saturating", "plain"] {
+        let mut made = 0;
+        let mut attempts = 0;
+        while made < pairs && attempts < pairs * 20 {
+            attempts += 1;
+            let a: T = gen_val(g);
+            let b: T = gen_val(g);
+            let has_neg = T::SIGNED || wrap == "wrapping";
+            let op = if has_neg && g.rng.chance(1, 12) { "neg" } else { *g.rng.pick(&ops) };
+            if wrap == "plain" {
+                // plain integers: non-overflowing pairs only (overflow behaviour depends on the
+                // profile); division by zero and MIN / -1 panic in every profile and are kept
+                let fine = T::checked(op, a, b).is_some();
+                let always_panics = op == "div";
+                if !fine && !always_panics {
+                    g.count("op.plain.skipped-overflowing");
+                    continue;
+                }
+                if !fine {
+                    g.count("op.plain.div-panic");
+                }
+            }
+            g.op(format!("@ op {} {} {} {} {}", ty, wrap, op, a, b));
+            g.count(&format!("op.{}.{}", wrap, op));
+            g.count(&format!("op.type.{}", ty));
+            if a == T::max() || a == T::min() || b == T::max() || b == T::min() {
+                g.count("op.with-MIN-or-MAX-operand");
+            }
+            made += 1;
+        }
+        // identities
+        for _ in 0..(pairs / 4).max(8) {
+            let a: T = gen_val(g);
+            g.op(format!("@ ident {} {} {}", ty, wrap, a));
+            g.count(&format!("ident.{}", wrap));
+        }
+        for a in [T::min(), T::max(), T::from_bits(0), T::from_bits(1)] {
+            g.op(format!("@ ident {} {} {}", ty, wrap, a));
+            g.count(&format!("ident.{}", wrap));
+        }
+    }
+}
+
+fn boundary_counts<T: Prim>(g: &mut Gen) -> Vec<usize> {
+    let mut v: Vec<usize> = vec![0, 1, 2, usize::MAX - 1, usize::MAX];
+    let max = T::max().as_i128() as u128; // u128::MAX wraps to -1 -> u128::MAX again
+    for d in [-2i64, -1, 0, 1, 2] {
+        let c = max.wrapping_add(d as i128 as u128);
+        if c <= usize::MAX as u128 {
+            v.push(c as usize);
+        }
+    }
+    for k in 0..64u32 {
+        let p = 1usize << k;
+        v.push(p);
+        v.push(p - 1);
+        v.push(p.wrapping_add(1));
+    }
+    for _ in 0..40 {
+        let bits = g.rng.range(1, 64) as u32;
+        v.push((g.rng.next() >> (64 - bits)) as usize);
+    }
+    v.sort();
+    v.dedup();
+    v
+}
+
+fn float_counts(g: &mut Gen, p: u32, extra: usize) -> Vec<usize> {
+    let mut v: Vec<usize> = vec![0, 1, 2, 3, usize::MAX, usize::MAX - 1];
+    for k in 0..64u32 {
+        let q = 1usize << k;
+        for d in 0..4usize {
+            v.push(q.wrapping_add(d));
+            v.push(q.wrapping_sub(d));
+        }
+    }
+    // ties and near-ties: n = q * 2^s + r with r around half
+    for _ in 0..extra {
+        let l = g.rng.range(p as usize + 1, 64) as u32;
+        let s = l - p;
+        let q = ((g.rng.next() >> (64 - p)) | (1u64 << (p - 1))) as u128;
+        let half = 1u128 << (s - 1);
+        let r = match g.rng.below(6) {
+            0 => 0,
+            1 => half.wrapping_sub(1) & ((1u128 << s) - 1),
+            2 => half,
+            3 => (half + 1) & ((1u128 << s) - 1),
+            4 => (1u128 << s) - 1,
+            _ => (g.rng.next() as u128) & ((1u128 << s) - 1),
+        };
+        let n = (q << s) | r;
+        if n <= usize::MAX as u128 {
+            v.push(n as usize);
+        }
+        // all-ones mantissa that rounds up into the next binade
+        let n2 = (((1u128 << p) - 1) << s) | r;
+        if n2 <= usize::MAX as u128 {
+            v.push(n2 as usize);
+        }
+    }
+    for _ in 0..extra {
+        let bits = g.rng.range(1, 64) as u32;
+        v.push((g.rng.next() >> (64 - bits)) as usize);
+    }
+    v.sort();
+    v.dedup();
+    v
+}
+
+fn rand_float_bits(g: &mut Gen, f32_: bool) -> u64 {
+    let edge32: [u32; 10] = [0, 0x8000_0000, 0x3f80_0000, 0xbf80_0000, 0x7f80_0000, 0xff80_0000, 0x7fc0_0000, 1, 0x7f7f_ffff, 0x0080_0000];
+    let edge64: [u64; 10] = [
+        0, 0x8000_0000_0000_0000, 0x3ff0_0000_0000_0000, 0xbff0_0000_0000_0000, 0x7ff0_0000_0000_0000,
+        0xfff0_0000_0000_0000, 0x7ff8_0000_0000_0000, 1, 0x7fef_ffff_ffff_ffff, 0x0010_0000_0000_0000,
+    ];
+    if g.rng.chance(1, 5) {
+        if f32_ { *g.rng.pick(&edge32) as u64 } else { *g.rng.pick(&edge64) }
+    } else if g.rng.chance(1, 2) {
+        // moderate magnitudes
+        if f32_ {
+            (((g.rng.below(2001) as f32) - 1000.0) / 8.0).to_bits() as u64
+        } else {
+            (((g.rng.below(2_000_001) as f64) - 1_000_000.0) / 64.0).to_bits()
+        }
+    } else if f32_ {
+        g.rng.next() >> 32
+    } else {
+        g.rng.next()
+    }
+}
+
+pub fn gen(g: &mut Gen) {
+    let thorough = g.thorough;
+    // ---- from_usize: boundaries for every type and wrapper ------------------------------------
+    for ty in INT_TYS {
+        let counts = with_int!(ty, T => boundary_counts::<T>(g), else vec![]);
+        for wrap in wraps_of(ty) {
+            for &n in &counts {
+                g.op(format!("@ from_usize {} {} {}", ty, wrap, n));
+                g.count(&format!("from_usize.{}", wrap));
+            }
+            g.count_n(&format!("from_usize.type.{}", ty), counts.len() as u64);
+            // a window around MAX as one range line too
+            let max = with_int!(ty, T => <T as Prim>::max().as_i128() as u128, else 0);
+            if max < usize::MAX as u128 - 300 {
+                g.op(format!("@ from_usize_range {} {} {} {}", ty, wrap, (max as usize).saturating_sub(300), max as usize + 300));
+                g.count("from_usize.window-around-MAX");
+            } else {
+                g.op(format!("@ from_usize_range {} {} {} {}", ty, wrap, usize::MAX - 600, usize::MAX));
+                g.count("from_usize.window-below-usize-MAX");
+            }
+            g.op(format!("@ zero_one {} {}", ty, wrap));
+            g.count("zero_one");
+        }
+    }
+    for (ty, p) in [("f32", 24u32), ("f64", 53u32)] {
+        let counts = float_counts(g, p, if thorough { 3000 } else { 400 });
+        for wrap in wraps_of(ty) {
+            for &n in &counts {
+                g.op(format!("@ from_usize {} {} {}", ty, wrap, n));
+                g.count(&format!("from_usize.{}", wrap));
+            }
+            g.count_n(&format!("from_usize.type.{}", ty), counts.len() as u64);
+            g.op(format!("@ zero_one {} {}", ty, wrap));
+            g.count("zero_one");
+        }
+    }
+    // ---- from_usize: exhaustive for the 8/16-bit types (all wrappers) --------------------------
+    for ty in ["u8", "i8", "u16", "i16"] {
+        for wrap in wraps_of(ty) {
+            g.op(format!("@ from_usize_range {} {} 0 66000", ty, wrap));
+            g.count("from_usize.exhaustive-range-lines");
+            g.count_n("from_usize.counts-covered-by-ranges", 66001);
+        }
+    }
+    // ---- operators: all operand forms ----------------------------------------------------------
+    let pairs = if thorough { 10_000 } else { 1_200 };
+    for ty in INT_TYS {
+        with_int!(ty, T => gen_ops_for::<T>(g, ty, pairs), else ());
+    }
+    for ty in ["f32", "f64"] {
+        for _ in 0..pairs {
+            let a = rand_float_bits(g, ty == "f32");
+            let b = rand_float_bits(g, ty == "f32");
+            let op = *g.rng.pick(&["add", "sub", "mul", "div", "neg"]);
+            g.op(format!("@ fop {} {} {} {}", ty, op, a, b));
+            g.count(&format!("fop.{}.{}", ty, op));
+        }
+        for _ in 0..pairs / 4 {
+            let a = rand_float_bits(g, ty == "f32");
+            g.op(format!("@ fident {} {}", ty, a));
+            g.count(&format!("fident.{}", ty));
+        }
+    }
+    // ---- user-defined element types at every generic routine ---------------------------------
+    user::gen(g);
+    // ---- Trace / Record operators: every operand form --------------------------------------
+    wrap::gen(g);
+}
 
 pub struct Runner;
 
@@ -11,7 +799,26 @@ impl Runner {
         Runner
     }
 
-    pub fn step(&mut self, _toks: &[&str]) -> String {
-        "unimplemented".into()
+    pub fn step(&mut self, toks: &[&str]) -> String {
+        match toks {
+            ["@", "from_usize", ty, wrap, n] => match n.parse::<usize>() {
+                Ok(n) => from_usize_line(ty, wrap, n),
+                Err(_) => "bad-op".into(),
+            },
+            ["@", "from_usize_range", ty, wrap, lo, hi] => match (lo.parse::<usize>(), hi.parse::<usize>()) {
+                (Ok(lo), Ok(hi)) if lo <= hi => range_line(ty, wrap, lo, hi),
+                _ => "bad-op".into(),
+            },
+            ["@", "zero_one", ty, wrap] => zero_one_line(ty, wrap),
+            ["@", "op", ty, wrap, op, a, b] => op_line(ty, wrap, op, a, b),
+            ["@", "ident", ty, wrap, a] => ident_line(ty, wrap, a),
+            ["@", "fop", ty, op, a, b] => fop_line(ty, op, a, b),
+            ["@", "fident", ty, a] => fident_line(ty, a),
+            ["@", "user", rest @ ..] => user::run(rest),
+            ["@", cmd @ ("trop" | "trsc" | "trneg" | "trpow" | "recop" | "recsc" | "recneg" | "recpow"), rest @ ..] => {
+                wrap::run(cmd, rest)
+            }
+            _ => "bad-op".into(),
+        }
     }
 }
